@@ -40,6 +40,15 @@ INFO = {
  'l1': ('C17', '~tracer(): set_tracer(nullptr) instead of set_tracer(previous)', 'two tracers alive, the inner one dies, then an accepted call'),
  'l2': ('C18', '~stream_sentry(): os.setf(flags, basefield|adjustfield) instead of os.flags(flags)', 'destination stream carrying flags outside base/adjust (boolalpha, showbase, ...) and later output on it'),
  'l3': ('C11', 'range_is_permutation: matchers.erase(found) instead of swap-with-last + pop_back', 'three or more listed matchers, two of which overlap, a non-last one consumed first'),
+ 'm1': ('C09', 'TROMPELOEIL_SIDE_EFFECT_: the _12 and _14 bindings are transposed (side effects only)', 'arity >= 14 and a side effect that names _12 or _14'),
+ 'm2': ('C08', 'call_matcher::report_mismatch(): the break after the first failing WITH clause is dropped', 'no-match report for an expectation with >= 2 WITH clauses, an earlier one failing: later clauses are evaluated (guard idiom dereferences null)'),
+ 'm3': ('C19', 'times::action: guard `H > 0 || !sequence_set` tests L instead of H', 'legal .IN_SEQUENCE(s).TIMES(AT_MOST(n)) / TIMES(0, n) is refused at compile time'),
+ 'n1': ('C05', 'sequence_type::validate_match(): the early return for a sequence that does not block the expectation is dropped (rebased onto fix F9)', 'expectation or REQUIRE_DESTRUCTION naming two sequences and blocked in only one of them'),
+ 'n2': ('C03', 'find(): `cost < lowest_cost` -> `lowest_cost < cost`: the most expensive candidate wins', 'two matching candidates with non-zero cost, one of them ineligible'),
+ 'n3': ('C06', 'sequence_type::retire_until(): stops at the first unsatisfied predecessor', 'sequenced REQUIRE_DESTRUCTION behind an unsatisfied expectation, object destroyed too early, reporter returns'),
+ 'o1': ('C13', 'null_on_move copy constructor copies the pointer', 'deathwatched object with a live requirement copied through a const lvalue; the copy dies'),
+ 'o2': ('C16', 'one-argument set_reporter() resets the OK reporter to the default', 'a non-default OK reporter is installed, then set_reporter(f), then an accepted call'),
+ 'o3': ('C14', '~sequence_type(): early return when the sequence is completed (skips unlinking)', 'sequence object destroyed before satisfied-but-unsaturated expectations registered in it: std::abort() in ~list'),
 }
 rows = []
 for d in sorted(glob.glob(os.path.join(HERE, 'seeded', '*'))):
